@@ -85,6 +85,24 @@ def run(ctx):
                 docs.append({"doc": None, "raw": r, "cls": "malformed-inner", "path": (), "t": t})
         cc = Case(c.cid + "i", c.schema, docs, fam="inner-types")
         cases2.append(cc)
+    # types and fields named like the identifiers the method templates use (Plain, plain, raw, value, err, j), through both decoders
+    tn = {"type": "object",
+          "$defs": {"Plain": {"type": "object", "properties": {"text": {"type": "string", "minLength": 2}}, "required": ["text"]},
+                    "Raw": {"type": "object", "properties": {"raw": {"type": "integer", "minimum": 1}, "plain": {"type": "string"}}, "required": ["raw"]},
+                    "Plain_0": {"type": "string", "minLength": 1}, "Value": {"type": "object", "properties": {"value": {"type": "number", "maximum": 5}, "err": {"type": "string"}}, "required": ["value"]}},
+          "properties": {"plain": {"$ref": "#/$defs/Plain"}, "raw": {"$ref": "#/$defs/Raw"}, "p0": {"$ref": "#/$defs/Plain_0"}, "value": {"$ref": "#/$defs/Value"},
+                         "err": {"type": "integer"}, "j": {"type": "boolean"}},
+          "required": ["plain"]}
+    for wire in ("json", "yaml"):
+        docs = [{"doc": {"plain": {"text": "hello"}, "raw": {"raw": 2, "plain": "x"}, "p0": "s", "value": {"value": 1.5}, "err": 3, "j": True}, "cls": "valid", "path": ()},
+                {"doc": {"plain": {"text": "h"}}, "cls": "string", "path": ()}, {"doc": {"plain": {"text": [1, 2]}}, "cls": "type", "path": ()}, {"doc": {"plain": {}}, "cls": "required", "path": ()}]
+        for t, good in (("Plain", {"text": "hello"}), ("Raw", {"raw": 3}), ("Value", {"value": 2})):
+            docs.append({"doc": good, "cls": "valid-inner", "path": (), "t": t})
+            for v in SHAPES[:12]:
+                docs.append({"doc": v, "cls": "shape-inner", "path": (), "t": t})
+        for v in SHAPES:
+            docs.append({"doc": v, "cls": "shape", "path": ()})
+        cases2.append(Case("c19tn" + wire, tn, docs, fam="template-names/" + wire, extra_imports=True, wire=wire, no_model=True))
     run_cases(ctx, cases2, "c19i")
     nv = 0
     allc = cases + cases2
